@@ -186,14 +186,22 @@ type Engine struct {
 	extraFn    map[string]string // uninterpreted function declarations
 	nfaults    int
 	nsnaps     int
-	Applied    map[string]bool // "<package name>.<function key>" of every contract applied at a call site (which supporting contracts a check rests on)
-	Go64       bool            // dialect go64: fixed-width integers, overflow-freedom is an obligation
-	Sweep      bool            // zero-annotation mode: loops are cut with the syntactic frame only
+	Relied     map[string][]RelyInv // by package path: package invariants proved in other modules that hold on entry of exported methods
+	Applied    map[string]bool      // "<package name>.<function key>" of every contract applied at a call site (which supporting contracts a check rests on)
+	Go64       bool                 // dialect go64: fixed-width integers, overflow-freedom is an obligation
+	Sweep      bool                 // zero-annotation mode: loops are cut with the syntactic frame only
 	ufSig      map[string]string
 	unmodelled map[string]int
 	writes     map[*types.Func]bool
 	logs       map[*types.Func]bool
 	gen        int
+}
+
+// RelyInv is a package invariant of another module of the same package (translated with that module's definitions).
+type RelyInv struct {
+	From string // module that proves it
+	Inv  *spec.InvDecl
+	File *spec.File
 }
 
 // Unmodelled reports interop functions that were abstracted as uninterpreted in sweep mode.
